@@ -109,11 +109,11 @@ harness! {
 }
 
 harness! {
-    /// kind=bounded tier=thorough bound="string<=3 chars (any chars), &str pattern<=2 chars"
-    #[kani::unwind(14)]
+    /// kind=bounded tier=quick bound="valid UTF-8 string<=5 bytes, &str pattern<=3 bytes"
+    #[kani::unwind(8)]
     fn c04_str_find_strpat(s) {
-        let hs = SymStr::<12>::any(s, 3);
-        let ps = SymStr::<8>::any(s, 2);
+        let hs = BStr::<5>::any(s);
+        let ps = BStr::<3>::any(s);
         let (h, p) = (hs.as_str(), ps.as_str());
         let e = ref_find(h.as_bytes(), p.as_bytes());
         chk!(s, string::find(h, p) == e, "C04.string_find.str.first_occurrence");
@@ -123,15 +123,15 @@ harness! {
             chk!(s, string::rfind(h, p) == er, "C04.string_rfind.str.last_occurrence");
             chk!(s, string::rcontains(h, p) == er.is_some(), "C04.string_rcontains.str");
         }
-        cov!(s, p.len() == 5 && e == Some(2), "C04.cover.str_multibyte_found");
+        cov!(s, p.len() == 3 && p.as_bytes()[0] >= 0xE0 && e == Some(2), "C04.cover.str_multibyte_found");
     }
 }
 
 harness! {
-    /// kind=bounded tier=thorough bound="string<=3 chars (any chars), char pattern (any char)"
-    #[kani::unwind(14)]
+    /// kind=bounded tier=quick bound="valid UTF-8 string<=6 bytes, char pattern (any char)"
+    #[kani::unwind(8)]
     fn c04_str_find_charpat(s) {
-        let hs = SymStr::<12>::any(s, 3);
+        let hs = BStr::<6>::any(s);
         let c = s.char();
         let h = hs.as_str();
         let mut tmp = [0u8; 4];
@@ -142,16 +142,16 @@ harness! {
         chk!(s, string::rfind(h, c) == er, "C04.string_rfind.char.last_occurrence");
         chk!(s, string::contains(h, c) == e.is_some(), "C04.string_contains.char");
         chk!(s, string::rcontains(h, c) == e.is_some(), "C04.string_rcontains.char");
-        cov!(s, p.len() == 4 && e == Some(3), "C04.cover.char4_found");
+        cov!(s, p.len() == 4 && e == Some(2), "C04.cover.char4_found");
     }
 }
 
 harness! {
-    /// kind=bounded tier=thorough bound="string<=3 chars, &str pattern<=2 chars"
-    #[kani::unwind(14)]
+    /// kind=bounded tier=quick bound="valid UTF-8 string<=5 bytes, &str pattern<=3 bytes"
+    #[kani::unwind(8)]
     fn c04_str_find_skip_keep(s) {
-        let hs = SymStr::<12>::any(s, 3);
-        let ps = SymStr::<8>::any(s, 2);
+        let hs = BStr::<5>::any(s);
+        let ps = BStr::<3>::any(s);
         let (h, p) = (hs.as_str(), ps.as_str());
         let (hb, pl) = (h.as_bytes(), p.len());
         let e = ref_find(hb, p.as_bytes());
@@ -189,11 +189,11 @@ harness! {
 }
 
 harness! {
-    /// kind=bounded tier=thorough bound="string<=3 chars, &str delimiter<=2 chars"
-    #[kani::unwind(14)]
+    /// kind=bounded tier=quick bound="valid UTF-8 string<=5 bytes, &str delimiter<=3 bytes"
+    #[kani::unwind(8)]
     fn c04_split_once(s) {
-        let hs = SymStr::<12>::any(s, 3);
-        let ps = SymStr::<8>::any(s, 2);
+        let hs = BStr::<5>::any(s);
+        let ps = BStr::<3>::any(s);
         let (h, p) = (hs.as_str(), ps.as_str());
         let (hb, pl) = (h.as_bytes(), p.len());
         let r = string::split_once(h, p);
@@ -242,10 +242,10 @@ harness! {
 }
 
 harness! {
-    /// kind=bounded tier=thorough bound="spec adequacy: ref_find/ref_rfind vs str::find/rfind with char patterns, string<=3 chars"
-    #[kani::unwind(14)]
+    /// kind=bounded tier=thorough bound="spec adequacy: ref_find/ref_rfind vs str::find/rfind with char patterns, string<=6 bytes"
+    #[kani::unwind(8)]
     fn c04_spec_vs_std(s) {
-        let hs = SymStr::<12>::any(s, 3);
+        let hs = BStr::<6>::any(s);
         let c = s.char();
         let h = hs.as_str();
         let mut tmp = [0u8; 4];
